@@ -24,10 +24,11 @@ Record dec : Type := mkdec {
 Definition sou := NilEmpty.string_of_uint.
 Definition uos := NilEmpty.uint_of_string.
 
-(* number of fractional digits: 12 for %.12E *)
-Definition wf_dec_n (n : nat) (d : dec) : bool :=
-  (nb_digits (d_lead d) =? 1)%nat && (nb_digits (d_frac d) =? n)%nat
+(* [chk] constrains the number of fractional digits: = 12 for %.12E *)
+Definition wf_dec_p (chk : nat -> bool) (d : dec) : bool :=
+  (nb_digits (d_lead d) =? 1)%nat && chk (nb_digits (d_frac d))
   && (2 <=? nb_digits (d_exp d))%nat.
+Definition wf_dec_n (n : nat) : dec -> bool := wf_dec_p (fun k => (k =? n)%nat).
 
 Definition print_dec (d : dec) : string :=
   (if d_neg d then "-" else "") ++ sou (d_lead d) ++ "." ++ sou (d_frac d)
@@ -44,7 +45,7 @@ Fixpoint split_at (c : ascii) (s : string) : option (string * string) :=
          end
   end.
 
-Definition parse_dec_n (n : nat) (s : string) : option dec :=
+Definition parse_dec_p (chk : nat -> bool) (s : string) : option dec :=
   let '(neg, s1) := match s with
                     | String a r => if Ascii.eqb a "-" then (true, r) else (false, s)
                     | "" => (false, s)
@@ -62,7 +63,7 @@ Definition parse_dec_n (n : nat) (s : string) : option dec :=
           match uos a, uos b, uos e with
           | Some ua, Some ub, Some ue =>
             let d := mkdec neg ua ub (Ascii.eqb sg "-") ue in
-            if wf_dec_n n d then Some d else None
+            if wf_dec_p chk d then Some d else None
           | _, _, _ => None
           end
         else None
@@ -70,8 +71,12 @@ Definition parse_dec_n (n : nat) (s : string) : option dec :=
     end
   end.
 
+Definition parse_dec_n (n : nat) : string -> option dec := parse_dec_p (fun k => (k =? n)%nat).
 Definition wf_dec := wf_dec_n 12.
 Definition parse_dec := parse_dec_n 12.
+(* any number of fractional digits (the reader's float() does not care) *)
+Definition wf_dec_free : dec -> bool := wf_dec_p (fun _ => true).
+Definition parse_dec_free : string -> option dec := parse_dec_p (fun _ => true).
 
 (* ------------------------------------------------------------------ *)
 Lemma split_at_app c x r :
@@ -100,10 +105,10 @@ Proof.
     try reflexivity; reflexivity.
 Qed.
 
-Lemma parse_print_dec_n n d :
-  wf_dec_n n d = true -> parse_dec_n n (print_dec d) = Some d.
+Lemma parse_print_dec_p chk d :
+  wf_dec_p chk d = true -> parse_dec_p chk (print_dec d) = Some d.
 Proof.
-  intros W. pose proof W as W'. unfold wf_dec_n in W'.
+  intros W. pose proof W as W'. unfold wf_dec_p in W'.
   apply andb_true_iff in W' as [W' We]. apply andb_true_iff in W' as [Wl Wf].
   apply Nat.eqb_eq in Wl.
   destruct (sou_head (d_lead d)) as (a & s & Ea & Da); [lia|].
@@ -116,7 +121,7 @@ Proof.
     - reflexivity.
     - rewrite Ea. simpl.
       destruct (Ascii.eqb_spec a "-"); [subst; discriminate|reflexivity]. }
-  unfold parse_dec_n, print_dec. rewrite Hneg. cbn [append].
+  unfold parse_dec_p, print_dec. rewrite Hneg. cbn [append].
   rewrite split_at_app by (apply digits_no_char; [reflexivity|apply sou_digits]).
   rewrite split_at_app by (apply digits_no_char; [reflexivity|apply sou_digits]).
   assert (Es : (if d_eneg d then "-" else "+") ++ sou (d_exp d)
@@ -132,8 +137,16 @@ Proof.
   rewrite Eb. destruct d; simpl in *. rewrite W. reflexivity.
 Qed.
 
+Lemma parse_print_dec_n n d :
+  wf_dec_n n d = true -> parse_dec_n n (print_dec d) = Some d.
+Proof. apply parse_print_dec_p. Qed.
+
 Lemma parse_print_dec d : wf_dec d = true -> parse_dec (print_dec d) = Some d.
-Proof. apply parse_print_dec_n. Qed.
+Proof. apply parse_print_dec_p. Qed.
+
+Lemma parse_print_dec_free d :
+  wf_dec_free d = true -> parse_dec_free (print_dec d) = Some d.
+Proof. apply parse_print_dec_p. Qed.
 
 Lemma print_dec_clean d : clean (print_dec d) = true.
 Proof.
